@@ -41,6 +41,7 @@ LEVEL_NOTE = "trusts the oracles in this module (about sixty lines, no traffic_w
 
 METHODS = ["linear", "constant", "cubic", "spline"]
 STEP_ULPS = 16
+EPS = 2.0 ** -52
 BOGUS = ["bogus", "Linear", "LINEAR", "quadratic", "nearest", "", "constant ", "splines", "cubic_spline", "lin"]
 
 
@@ -74,11 +75,26 @@ def linear_value(x, y, q):
     return ("inside", want, abs(float(y[i])) + abs(float(y[i + 1])))
 
 
+def affine_tolerance(method, x, p, c):
+    """The samples fl(p*x_i + c) carry a rounding error of up to eps*(|p|*max|x| + |c|) =: eps*S (for epoch-like x
+    that is eps*|x|/gap relative to the change of y over one gap, the term that matters there).  'linear' forms a
+    convex combination of two samples: measured <= 1 eps*S.  The cubic / B-spline fits amplify data errors on
+    non-uniform grids; measured against the exact rational p*q + c: <= 7 eps*S for gap ratio r <= 10 and
+    <= 2.1e3 eps*S for r <= 100, i.e. growing no faster than r**2.  Tolerance 400*eps*S for 'linear' and
+    400*r**2*eps*S (8.9e-10*S at r = 100) for the splines keeps >= 2 decades of head-room at every r."""
+    d = [float(b) - float(a) for a, b in zip(x[:-1], x[1:])]
+    r = max(d) / min(d)
+    scale = abs(p) * max(abs(float(x[0])), abs(float(x[-1]))) + abs(c)
+    k = 400.0 if method == "linear" else 400.0 * max(1.0, r) ** 2
+    return k * EPS * scale
+
+
 def check_values(method, x, y, grid, got, affine=None, where=""):
     """All clauses of the statement that apply to `method` evaluated on `grid`.  x, y, grid: lists of Python
     numbers; got: float ndarray already validated for shape."""
     gl = [float(v) for v in got]
     ymax = max(abs(float(v)) for v in y)
+    aff_tol = Fraction(affine_tolerance(method, x, *affine)) if affine is not None else None
     for j, q in enumerate(grid):
         g = gl[j]
         if not math.isfinite(g):
@@ -103,11 +119,10 @@ def check_values(method, x, y, grid, got, affine=None, where=""):
                                 f"{y[i]!r} (tolerance {1e-9 * ymax:.3g})")
         if affine is not None and x[0] <= q <= x[-1]:
             p, c = affine
-            want = p * q + c
-            scale = abs(p) * max(abs(float(x[0])), abs(float(x[-1]))) + abs(c)
-            if abs(g - want) > 1e-9 * scale:
+            want = Fraction(p) * Fraction(q) + Fraction(c)
+            if abs(Fraction(g) - want) > aff_tol:
                 raise Violation(f"{where}{method}: affine data {p!r}*x+{c!r} not reproduced at {q!r}: got {g!r}, "
-                                f"expected {want!r} (tolerance {1e-9 * scale:.3g})")
+                                f"expected {float(want)!r} (tolerance {float(aff_tol):.3g})")
 
 
 def check_array(res, n, where):
@@ -126,10 +141,62 @@ def _is_int(v):
     return float(v).is_integer() and abs(v) < 2 ** 40
 
 
+INT_X_KINDS = ["unit", "hours", "epoch"]                       # every abscissa is an integer
+INT_FRIENDLY_X_KINDS = ["unit", "hours", "dyadic", "motif", "epoch"]   # the range contains several integers
+NON_INTEGER_Y_KINDS = ["dyadic", "smooth", "sign", "offset", "smooth"]
+
+
 @st.composite
-def base(draw, ctx, affine=False, nonconstant=False):
+def epoch_x(draw, m):
+    """epoch seconds 1.7e9 + step*k (steps of a second / minute / hour, uniform or with gap ratio <= 100): inside
+    numpy.allclose's default rtol of the neighbouring samples although the gaps are wide."""
+    start = 1_700_000_000 + draw(st.integers(0, 10 ** 6))
+    step = draw(st.sampled_from([1, 60, 3600]))
+    if draw(st.booleans()):
+        mult = [1] * (m - 1)
+    else:
+        mult = draw(st.lists(st.sampled_from([1, 1, 2, 3, 5, 24, 100]), min_size=m - 1, max_size=m - 1))
+    x = [start]
+    for k in mult:
+        x.append(x[-1] + step * k)
+    as_int = draw(st.booleans())
+    return dict(kind="epoch-int" if as_int else "epoch", x=[int(v) for v in x] if as_int else [float(v) for v in x],
+                int=as_int)
+
+
+@st.composite
+def tiny_x(draw, m):
+    """1e-9 * lattice: all samples lie inside numpy.allclose's default atol of each other's neighbours."""
+    k0 = draw(st.integers(-50, 50))
+    if draw(st.booleans()):
+        mult = [1.0] * (m - 1)
+    else:
+        mult = draw(st.lists(st.sampled_from([0.25, 0.5, 1.0, 2.0, 7.0, 20.0]), min_size=m - 1, max_size=m - 1))
+    k = [float(k0)]
+    for v in mult:
+        k.append(k[-1] + v)
+    return dict(kind="tiny", x=[1e-9 * v for v in k], int=False)
+
+
+@st.composite
+def any_x(draw, m, xmode=None):
+    if xmode == "intx":
+        kind = draw(st.sampled_from(INT_X_KINDS))
+    elif xmode == "intfriendly":
+        kind = draw(st.sampled_from(INT_FRIENDLY_X_KINDS))
+    else:
+        kind = draw(st.sampled_from(["gens"] * 6 + ["epoch", "epoch", "tiny"]))
+    if kind == "epoch":
+        return draw(epoch_x(m))
+    if kind == "tiny":
+        return draw(tiny_x(m))
+    return draw(xs(m, None if kind == "gens" else [kind], max_ratio=1e2))
+
+
+@st.composite
+def base(draw, ctx, affine=False, nonconstant=False, xmode=None, ykinds=None):
     m = draw(st.integers(4, 60))
-    xd = draw(xs(m, max_ratio=1e2))
+    xd = draw(any_x(m, xmode))
     x = xd["x"]
     case = dict(x=x, xkind=xd["kind"], xint=bool(xd["int"]))
     if affine:
@@ -138,7 +205,7 @@ def base(draw, ctx, affine=False, nonconstant=False):
         c = draw(st.one_of(st.integers(-20, 20).map(float), fl(-1e3, 1e3)))
         case.update(y=[p * float(v) + c for v in x], ykind="affine", p=p, c=c)
     else:
-        yd = draw(ys(m, nonconstant=nonconstant))
+        yd = draw(ys(m, ykinds, nonconstant=nonconstant))
         case.update(y=yd["y"], ykind=yd["kind"])
     case["xc"] = draw(st.sampled_from(["array", "array", "array", "list"]))
     yc = ["array", "array", "array", "list"]
@@ -206,17 +273,71 @@ def points(draw, x, profile, lo=1, hi=40, clip=False):
 
 
 @st.composite
+def shifted_points(draw, x):
+    """same length as x: end points kept, every interior point moved by 0.1..0.9 of the gap on that side."""
+    m = len(x)
+    xf = [float(v) for v in x]
+    mode = draw(st.sampled_from(["fwd", "bwd", "mixed"]))
+    same_t = draw(st.booleans())
+    t0 = draw(st.one_of(st.just(0.5), fl(0.1, 0.9)))
+    out = [xf[0]]
+    for i in range(1, m - 1):
+        t = t0 if same_t else draw(fl(0.1, 0.9))
+        fwd = mode == "fwd" or (mode == "mixed" and draw(st.booleans()))
+        out.append(xf[i] + t * (xf[i + 1] - xf[i]) if fwd else xf[i] - t * (xf[i] - xf[i - 1]))
+    out.append(xf[-1])
+    out.sort()
+    return out
+
+
+@st.composite
+def integer_points(draw, x, inside_only=False):
+    """sorted integers around / inside the data range: a contiguous arange or a random selection."""
+    lo = math.floor(float(x[0])) - (0 if inside_only else draw(st.integers(0, 3)))
+    hi = math.ceil(float(x[-1])) + (0 if inside_only else draw(st.integers(0, 3)))
+    if inside_only:
+        lo, hi = math.ceil(float(x[0])), math.floor(float(x[-1]))
+    if hi <= lo:
+        return [float(lo)]
+    if draw(st.booleans()):
+        step = max(1, -(-(hi - lo) // draw(st.integers(2, 60))))
+        pts = list(range(lo, hi + 1, step))
+    else:
+        pts = sorted(draw(st.lists(st.integers(lo, hi), min_size=1, max_size=40)))
+    return [float(v) for v in pts]
+
+
+GRID_PROFILES = ["inside", "subset", "mixed", "mixed", "beyond", "superset", "same", "shifted", "shifted", "intgrid",
+                 "intgrid"]
+
+
+@st.composite
+def grid_container(draw, g):
+    if all(_is_int(v) for v in g):
+        return draw(st.sampled_from(["int", "int", "intlist", "array", "list"]))
+    return draw(st.sampled_from(["array", "array", "list"]))
+
+
+@st.composite
 def grid_case(draw, ctx, method=None, affine=False, profiles=None, nonconstant=False):
-    case = draw(base(ctx, affine=affine, nonconstant=nonconstant))
+    profile = draw(st.sampled_from(profiles or GRID_PROFILES))
+    if profile in ("intgrid", "same-int"):
+        case = draw(base(ctx, affine=affine, nonconstant=nonconstant,
+                         xmode="intx" if profile == "same-int" else "intfriendly", ykinds=NON_INTEGER_Y_KINDS))
+    else:
+        case = draw(base(ctx, affine=affine, nonconstant=nonconstant))
     x = case["x"]
-    profile = draw(st.sampled_from(profiles or ["inside", "subset", "mixed", "mixed", "beyond", "superset", "same"]))
-    if profile == "same":
+    if profile in ("same", "same-int"):
         g = [float(v) for v in x]
     elif profile == "superset":
         g = sorted([float(v) for v in x] + draw(points(x, "inside", 1, 30)))
+    elif profile == "shifted":
+        g = draw(shifted_points(x))
+    elif profile == "intgrid":
+        g = draw(integer_points(x))
     else:
         g = draw(points(x, profile))
-    case.update(grid=g, profile=profile, gc=draw(st.sampled_from(["array", "array", "list"])))
+    case.update(grid=g, profile=profile, gc=draw(grid_container(g)))
     if method is not None:
         case["method"] = method
     return case
@@ -240,7 +361,14 @@ def inputs(case):
 
 
 def grid_input(case):
-    return list(case["grid"]) if case.get("gc") == "list" else np.array(case["grid"], dtype=float)
+    gc = case.get("gc")
+    if gc == "list":
+        return list(case["grid"])
+    if gc == "intlist":
+        return [int(v) for v in case["grid"]]
+    if gc == "int":
+        return np.array([int(v) for v in case["grid"]], dtype=np.int64)
+    return np.array(case["grid"], dtype=float)
 
 
 def grid_classes(x, grid):
